@@ -154,6 +154,22 @@ fn poly_cells<F: FftField + PrimeField>(fname: &str, out: &mut Vec<Cell>) {
                     }),
                 });
             }
+            if [64usize, 257, 1025].contains(&n) && kind == 0 {
+                // sparse polynomial over a domain: per-point evaluation, output must stay in domain order
+                let d = if n == 64 { 64 } else if n == 257 { 256 } else { 1024 };
+                out.push(Cell {
+                    name: format!("{fname}/sparse_evaluate_over_domain/d={d}"),
+                    bound: 2,
+                    op: Box::new(move || {
+                        let terms: Vec<(usize, F)> = (0..5usize).map(|i| (7 * i + 1, F::from(i as u64 + 2))).collect();
+                        let sp = ark_poly::univariate::SparsePolynomial::from_coefficients_vec(terms);
+                        let dom = GeneralEvaluationDomain::<F>::new(d).unwrap();
+                        let mut b = ser(&sp.evaluate_over_domain_by_ref(dom).evals);
+                        b.extend(ser(&sp.evaluate_over_domain(dom.get_coset(F::GENERATOR).unwrap()).evals));
+                        b
+                    }),
+                });
+            }
             let cc = c.clone();
             out.push(Cell {
                 name: format!("{fname}/batch_inversion/n={n}/v{kind}"),
